@@ -123,6 +123,25 @@ def r3_multiplicity_and_r6_strip(ctx, rule):
         ok = False
         ctx.bad(rule, RP, 'num_passwords updated by %s, yields %s times' % (facts['count_update'], nvar),
                 'the password count N must grow by exactly the number of times the password is yielded', facts, (incs or [ystmt])[0])
+    # counted == yielded on every path: once N has grown, nothing may skip the line any more (seed C06-fb moved the count and the
+    # validity test above the re-encode check: an undecodable line is counted, then skipped - N, and with it the Markov pseudo-count
+    # and every probability in grammar.txt, is too large)
+    if len(incs) == 1:
+        inc = incs[0]
+        ipar = mod.parents.get(id(inc))
+        block = next((b for f in ('body', 'orelse', 'finalbody') for b in [getattr(ipar, f, None)] if isinstance(b, list) and inc in b), None)
+        if block is None or par not in block or block.index(par) < block.index(inc):
+            ok = False
+            ctx.unk(rule, RP, 'the count update and the yield loop are not statements of one block, count first - not a form this rule follows')
+        else:
+            for st in block[block.index(inc) + 1:block.index(par)]:
+                for x in ast.walk(st):
+                    if isinstance(x, (ast.Continue, ast.Return, ast.Raise, ast.Break)):
+                        ok = False
+                        ctx.bad(rule, RP, '%s between `%s` and the yield' % (type(x).__name__.lower(), U(inc)),
+                                'a line that has been counted must be yielded: every test that can skip the line comes before the count, '
+                                'or N (the denominator of every probability and the base of the Markov pseudo-count) exceeds the number '
+                                'of passwords parsed', facts, x, firm=True)
     stores = stores_in(fn)
     ndefs = [U(v) if v is not None else '<%s>' % type(s).__name__ for s, v in stores.get(nvar, [])]
     facts['n_definitions'] = ndefs
